@@ -1,1 +1,4 @@
 import Iodata.Props.C10
+import Iodata.Props.C02
+import Iodata.Props.C03
+import Iodata.Props.C15
